@@ -31,6 +31,36 @@ def _find_pack_block(fn):
     return None, None
 
 
+def _expand_shape_aliases(fnode):
+    """a local bound once to a shape read (`cols = a.shape[1]`, `nd = a.ndim`) is replaced by that read at every use, so
+    that the tests the packing depends on are about the array again (in place: the rewrite keeps behaviour)"""
+    import copy
+
+    stores = {}
+    for n in ast.walk(fnode):
+        if isinstance(n, ast.Name) and isinstance(n.ctx, (ast.Store, ast.Del)):
+            stores[n.id] = stores.get(n.id, 0) + 1
+    alias = {}
+    for st in fnode.body:
+        if isinstance(st, ast.Assign) and len(st.targets) == 1 and isinstance(st.targets[0], ast.Name) and stores.get(st.targets[0].id) == 1:
+            t = ast.unparse(st.value).replace(" ", "")
+            if re.fullmatch(r"[A-Za-z_]\w*\.(shape\[[01]\]|ndim)|len\([A-Za-z_]\w*\.shape\)", t):
+                base = t.split(".")[0].replace("len(", "")
+                if stores.get(base, 0) <= 1:  # the array itself is not rebound afterwards
+                    alias[st.targets[0].id] = st.value
+    if not alias:
+        return
+
+    class R(ast.NodeTransformer):
+        def visit_Name(self, node):
+            if isinstance(node.ctx, ast.Load) and node.id in alias:
+                return ast.copy_location(copy.deepcopy(alias[node.id]), node)
+            return node
+
+    for i, st in enumerate(fnode.body):
+        fnode.body[i] = R().visit(st)
+
+
 def _admitted_columns(test):
     """parse `... and X.shape[1] <= K` / `< K` / `== K` -> sorted list of column counts (>=1)"""
     conj = test.values if isinstance(test, ast.BoolOp) and isinstance(test.op, ast.And) else [test]
@@ -103,6 +133,7 @@ def check(run):
     run.rule("R5", "row-grouping entry points reach row equality only through hashable_rows")
     run.rule("R6", "float_to_int returns int64 on every path (the packing arithmetic assumes it)")
 
+    _expand_shape_aliases(fi.node)
     outer, inner = _find_pack_block(fi.node)
     if outer is None:
         raise AnalysisError("anchor vanished: bit-packing block (`if ... shape[1] <= K`) in grouping.hashable_rows")
